@@ -847,6 +847,38 @@ func maxDev(a, b *api.Resource, D int) float64 {
 	return m
 }
 
+// law 111 input: cluster total, then per queue with a record its capability as the Queue object
+// states it (normalised as the plugins do: no capability, a missing entry, cpu/memory <= 0 =
+// unbounded), its guarantee and the deserved the plugin computed
+func capabilityInput(x *input, r result) []int64 {
+	out := []int64{int64(x.D)}
+	out = append(out, encCellsScaled(x.total)...)
+	n := 0
+	for _, q := range r.qs {
+		if q.present {
+			n++
+		}
+	}
+	out = append(out, int64(n))
+	for k, q := range r.qs {
+		if !q.present {
+			continue
+		}
+		capn := make([]cell, x.D)
+		if x.qs[k].hasCap {
+			for j, c := range x.qs[k].cap {
+				if c.ok && !(j < 2 && c.v <= 0) {
+					capn[j] = c
+				}
+			}
+		}
+		out = append(out, encCellsScaled(capn)...)
+		out = append(out, encCellsScaled(specGuarantee(x.qs[k]))...)
+		out = append(out, encScaled(q.des, x.D)...)
+	}
+	return out
+}
+
 func lawInput(x *input, r result, capacityMode bool) []int64 {
 	out := []int64{int64(x.D)}
 	out = append(out, encCellsScaled(x.total)...)
@@ -884,19 +916,24 @@ func laws(sel int, in, got []int64, law func(lsel int, lin []int64, sig string))
 		return
 	}
 	if sel == 3 {
-		for p := 0; p < 2; p++ {
-			if li, ok := hierLawInput(x, last.runs[0], p); ok {
-				law(106, li, "")
+		for _, r := range last.runs { // every map order
+			for p := 0; p < 2; p++ {
+				if li, ok := hierLawInput(x, r, p); ok {
+					law(106, li, "")
+				}
 			}
 		}
 		return
 	}
 	if sel == 2 {
 		li := lawInput(x, last.runs[0], true)
-		law(101, li, "")
+		law(115, li, "") // 101 without judging a missing realCapability entry (deserved is configuration)
 		law(105, li, "")
+		law(111, capabilityInput(x, last.runs[0]), "")
 		return
 	}
+	var excuse []int64
+	var excuseN int64
 	for i, r := range last.runs {
 		// float part of the correspondence, once per run (map order)
 		lin := append([]int64{}, in...)
@@ -912,6 +949,7 @@ func laws(sel int, in, got []int64, law func(lsel int, lin []int64, sig string))
 		law(102, li, "")
 		law(103, li, "")
 		law(105, li, "")
+		law(111, capabilityInput(x, r), "")
 		law(107, roundsInput(x, r), "")
 		law(104, li, "")
 		if i > 0 {
@@ -944,6 +982,15 @@ func laws(sel int, in, got []int64, law func(lsel int, lin []int64, sig string))
 			law(108, ab, "")
 			// the literal clause (no tolerance): known finding, see known-findings.json
 			law(109, ab, "C12/map-order-dependent-deserved")
+			// ... and the finding's excuse, unsigned: a difference is tolerated only on a case the
+			// exact model classifies as not robust, and only up to the 0.1 tolerance
+			// (one law case for both pairs: the model's robustness verdict is computed once)
+			excuse = append(excuse, ab[2:]...)
+			excuseN += ab[1]
+			if i == len(last.runs)-1 {
+				e := append(append([]int64{}, in...), excuseN)
+				law(112, append(e, excuse...), "")
+			}
 		}
 	}
 }
